@@ -186,6 +186,29 @@ def r2_forms(chk, prog, eng):
         chk.check(bool(x.get('array')), 'R2', f.name, 'argv storage is allocated with new[]', f.loc(x))
     for f, x in dels:
         chk.check(bool(x.get('array')), 'R2', f.name, 'argv storage is released with delete[]', f.loc(x))
+    # ... and nothing else than new[] ever reaches the pointers that the destructor releases with delete[]: every
+    # store of a pointer into the argv array (or of the array itself) has an array-new as right-hand side
+    stores = 0
+    for f in prog.functions:
+        if not (f.classq == 'celma::appl::ArgString2Array' or
+                f.name.startswith('celma::appl::(anonymous namespace)::')):
+            continue
+        for x in f.walk():
+            if x.get('k') != 'BinaryOperator' or x.get('op') != '=':
+                continue
+            lhs, rhs = children(x)
+            lt_ = (lhs.get('t') or '').replace(' ', '')
+            if lt_ not in ('char*', 'char**'):
+                continue
+            stores += 1
+            r0 = strip_all_casts(rhs)
+            ok = (r0.get('k') == 'CXXNewExpr' and bool(r0.get('array'))) or \
+                r0.get('k') in ('CXXNullPtrLiteralExpr', 'GNUNullExpr') or \
+                (r0.get('k') == 'MemberExpr' and r0.get('ref', {}).get('name') == 'mpArgV')     # ownership transfer
+            what = r0.get('callee') or r0.get('k')
+            chk.check(ok, 'R2', f.name, 'a pointer stored into the argv storage comes from new[] (it is released with '
+                      'delete[])', f.loc(x), 'the stored pointer comes from %s' % what)
+    chk.require(stores >= 4, 'stores into the argv storage found: %d' % stores)
     return n
 
 
